@@ -103,7 +103,13 @@ func VerifH_addRule_collisions() {
 	implicit := vfHTTPRule("*", "/vf.S/M0")
 	implicit.Body = "*"
 	vfCheck(root.addRule(implicit, d0, "/vf.S/M0") == nil, "implicit rule rejected")
-	switch vfChoice(7) {
+	switch vfChoice(8) {
+	case 7: // another service's method with the same short name claims the same verb and path
+		dT := &fakeMethod{full: "vf.T.M0", in: in, out: out}
+		vfCheck(root.addRule(vfHTTPRule("GET", "/aa/{f}"), d0, "/vf.S/M0") == nil, "setup")
+		err := root.addRule(vfHTTPRule("GET", "/aa/{g}"), dT, "/vf.T/M0")
+		vfCheck(err != nil, "two methods of different services (same short name) were bound to the same verb and path")
+		vfCover("same-short-name-conflict")
 	case 0: // the same method declares its implicit path again (second backend for the service)
 		err := root.addRule(implicit, d0, "/vf.S/M0")
 		vfCheck(err == nil, "re-declaring a method's own implicit binding must be accepted")
